@@ -4,9 +4,11 @@ mod gj;
 mod ops_c17;
 mod ops_centroid;
 mod ops_distance;
+mod ops_kernel;
 mod ops_c18;
 mod ops_poly;
 mod ops_relate;
+mod ops_segseg;
 mod ops_valid;
 
 use ctx::Ctx;
@@ -71,6 +73,8 @@ fn dispatch_case(cx: &mut Ctx, n: u64, case: &Value) {
     match case["op"].as_str().unwrap_or("") {
         "centroid" => ops_centroid::centroid_case(cx, n, case),
         "distance" => ops_distance::distance_case(cx, n, case),
+        "segseg" => ops_segseg::segseg_case(cx, n, case),
+        "kernel" => ops_kernel::kernel_case(cx, n, case),
         "poly" => ops_poly::poly_case(cx, n, case),
         "relate" => ops_relate::relate_case(cx, n, case),
         "coordpos" => ops_relate::coordpos_case(cx, n, case),
